@@ -22,7 +22,7 @@ def monitor(ctx, log, case=None, **kw):
     mf = mirror_failures(log)
     if any(h.startswith('x:') for h in hv):
         return mf          # outside the property's quantifier (see DESIGN.md C03)
-    return mf + monitors.P_C03(ctx, log, **kw)
+    return mf + monitors.P_C03(ctx, log, case=case, **kw)
 
 
 def hyp(case, ctx):
@@ -30,6 +30,7 @@ def hyp(case, ctx):
 
 
 def known_match(failure, case, hv):
+    if str(failure).startswith('ABS '): return None       # a step that did not wait for its provider is none of the known input classes
     if 'init_on_event_source' in hv: return 'F17'
     if 'shared_init_slot' in hv: return 'F10'
     if 'weak' in hv: return 'F11'
@@ -51,7 +52,8 @@ def features(case, run, val):
 
 
 def case_gen(rng, k):
-    case = gen.gen_parallel_case(rng) if k % 5 == 4 else gen.gen_fanin_case(rng) if k % 5 == 2 else gen.gen_case(rng, groups=True, clean=0.75)
+    if k % 11 == 6: return gen.gen_weak_and_direct_case(rng)
+    case = gen.gen_parallel_case(rng, clean=(k % 10 != 9)) if k % 5 == 4 else gen.gen_fanin_case(rng) if k % 5 == 2 else gen.gen_case(rng, groups=True, clean=0.75)
     if k % 4 == 3:
         case['mirror'] = rng.choice([1, 1, 2])       # several entities per simulator, connected index by index
     if k % 3 == 1:
